@@ -156,6 +156,11 @@ func (Migrator) Migrate(
 
 		if !shouldMigrate {
 			logger.Info("no starting block found, exiting")
+			// Blocks without transactions have no entries in the old buckets, so the
+			// passes above only reach those that share a batch with a non-empty block.
+			if err := backfillEmptyBlocks(database, chainHeight); err != nil {
+				return shouldRerun, err
+			}
 			return shouldNotRerun, clearOldBuckets(database)
 		}
 
